@@ -36,9 +36,53 @@ Section Forward.
   Proof. exact pow_dispatch. Qed.
 End Forward.
 
+(* the wrapper macro in the source (extracted by tools/gen_pywrap.py on every run): every Python method forwards to the Rust method of the documented
+   name, the reflected operators are the compositions modelled in Hand/PyWrap.v, and ** tries int, float, dual in that order *)
+From Coq Require Import String List.
+From NDgen Require Import Gen_PyWrap.
+Theorem C17_forwarding_table : py_forward_bodies = [("recip"%string, "self.0.recip().into()"%string);
+  ("powi"%string, "self.0.powi(n).into()"%string);
+  ("powf"%string, "self.0.powf(n).into()"%string);
+  ("powd"%string, "self.0.powd(n.0).into()"%string);
+  ("sqrt"%string, "self.0.sqrt().into()"%string);
+  ("cbrt"%string, "self.0.cbrt().into()"%string);
+  ("exp"%string, "self.0.exp().into()"%string);
+  ("exp2"%string, "self.0.exp2().into()"%string);
+  ("expm1"%string, "self.0.exp_m1().into()"%string);
+  ("log"%string, "self.0.ln().into()"%string);
+  ("log_base"%string, "self.0.log(base).into()"%string);
+  ("log2"%string, "self.0.log2().into()"%string);
+  ("log10"%string, "self.0.log10().into()"%string);
+  ("log1p"%string, "self.0.ln_1p().into()"%string);
+  ("sin"%string, "self.0.sin().into()"%string);
+  ("cos"%string, "self.0.cos().into()"%string);
+  ("tan"%string, "self.0.tan().into()"%string);
+  ("sin_cos"%string, "let (a, b) = self.0.sin_cos(); (a.into(), b.into())"%string);
+  ("arcsin"%string, "self.0.asin().into()"%string);
+  ("arccos"%string, "self.0.acos().into()"%string);
+  ("arctan"%string, "self.0.atan().into()"%string);
+  ("sinh"%string, "self.0.sinh().into()"%string);
+  ("cosh"%string, "self.0.cosh().into()"%string);
+  ("tanh"%string, "self.0.tanh().into()"%string);
+  ("arcsinh"%string, "self.0.asinh().into()"%string);
+  ("arccosh"%string, "self.0.acosh().into()"%string);
+  ("arctanh"%string, "self.0.atanh().into()"%string);
+  ("sph_j0"%string, "self.0.sph_j0().into()"%string);
+  ("sph_j1"%string, "self.0.sph_j1().into()"%string);
+  ("sph_j2"%string, "self.0.sph_j2().into()"%string);
+  ("mul_add"%string, "self.0.mul_add(a.0, b.0).into()"%string)].
+Proof. reflexivity. Qed.
+Theorem C17_reflected_bodies : py_reflected = [("__radd__"%string, "(self.0.clone() + lhs).into()"%string);
+  ("__rsub__"%string, "(-self.0.clone() + lhs).into()"%string);
+  ("__rmul__"%string, "(self.0.clone() * lhs).into()"%string);
+  ("__rtruediv__"%string, "(self.0.recip() * lhs).into()"%string)].
+Proof. reflexivity. Qed.
+Theorem C17_pow_order : py_pow_dispatch = [("i32"%string, "powi"%string); ("f64"%string, "powf"%string); ("Self"%string, "powd"%string)].
+Proof. reflexivity. Qed.
+
 Example C17_example : py_rsub (mkDual 1 2) 5 = mkDual 4 (-2).
 Proof. rcbv. f_equal; ring. Qed.
 
 Definition C17_bundle := (C17_reflected_Dual, C17_reflected_Dual2, C17_reflected_Dual3, C17_reflected_HyperDual, C17_reflected_HyperHyperDual,
-  @C17_forward_names, @C17_pow_dispatch).
+  @C17_forward_names, @C17_pow_dispatch, C17_forwarding_table, C17_reflected_bodies, C17_pow_order).
 Print Assumptions C17_bundle.
